@@ -76,6 +76,16 @@ pub fn entry_points() -> Vec<EntryPoint> {
     v.push(ep!("deb822_lossless::Deb822::read_relaxed", Doc, &[], |s| deb822_lossless::Deb822::read_relaxed(Cursor::new(s.as_bytes())).is_ok()));
     v.push(ep!("deb822_lossless::Deb822::from_file", Doc, &[], |s| with_file(s, |p| deb822_lossless::Deb822::from_file(p).is_ok())));
     v.push(ep!("deb822_lossless::Deb822::from_file_relaxed", Doc, &[], |s| with_file(s, |p| deb822_lossless::Deb822::from_file_relaxed(p).is_ok())));
+    // the Read-based entry points fed one byte per read call, and by a reader that fails half-way (short reads and
+    // injected errors are answers of the environment, not of the text)
+    v.push(ep!("deb822_lossless::Deb822::read (1-byte reads)", Doc, &[], |s| deb822_lossless::Deb822::read(ChunkReader::new(s.as_bytes(), 1)).is_ok()));
+    v.push(ep!("deb822_lossless::Deb822::read_relaxed (1-byte reads)", Doc, &[], |s| deb822_lossless::Deb822::read_relaxed(ChunkReader::new(s.as_bytes(), 1)).is_ok()));
+    v.push(ep!("deb822_lossless::Deb822::read_relaxed (reader failing half-way)", Doc, &[], |s| deb822_lossless::Deb822::read_relaxed(ChunkReader::failing(s.as_bytes(), 3, s.len() / 2)).is_ok()));
+    v.push(ep!("deb822_lossless::lossy::Deb822::from_reader (1-byte reads)", Doc, &[], |s| deb822_lossless::lossy::Deb822::from_reader(ChunkReader::new(s.as_bytes(), 1)).is_ok()));
+    v.push(ep!("deb822_lossless::lossy::Deb822::from_reader (reader failing half-way)", Doc, &[], |s| deb822_lossless::lossy::Deb822::from_reader(ChunkReader::failing(s.as_bytes(), 3, s.len() / 2)).is_ok()));
+    v.push(ep!("lossless::Control::read_relaxed (1-byte reads)", Doc, &[], |s| debian_control::lossless::control::Control::read_relaxed(ChunkReader::new(s.as_bytes(), 1)).is_ok()));
+    v.push(ep!("lossless::changes::Changes::read (1-byte reads)", Doc, &[], |s| debian_control::lossless::changes::Changes::read(ChunkReader::new(s.as_bytes(), 1)).is_ok()));
+    v.push(ep!("lossless::changes::Changes::read_relaxed (reader failing half-way)", Doc, &[], |s| debian_control::lossless::changes::Changes::read_relaxed(ChunkReader::failing(s.as_bytes(), 3, s.len() / 2)).is_ok()));
     // relations
     v.push(ep!("relations::Lexer (public token iterator)", Rel, &[], |s| debian_control::relations::Lexer::new(s).count()));
     v.push(ep!("serde: lossless::relations::Relations", Rel, &[], |s| serde_json::from_value::<debian_control::lossless::relations::Relations>(Value::String(s.to_string())).map(|r| r.to_string())));
